@@ -193,25 +193,48 @@ class K3TicketEngine(Engine):
             _hdr(2, 14, "rand") + " | P: ts*6 | C: tr",                                 # receiver drops first: Closed
             _hdr(5, 15, "pct") + " | P: ts | C: tr*4",                                  # senders gone: straggler drain, Disconnected
             _hdr(70, 16, "rand") + " | P: ts*9 | P: ts*9 | C: tr*20",                   # cap > CACHE_FLUSH_CHUNK: K = 64
+            # batches: claim_run / resolve_run (runs cut by slack, by K, by overshoot), deq_run
+            _hdr(2, 31, "pct") + " | P: tsb3 ts tsb2 | P: tsb4 tsb1 | C: trb2 tr trb5 trb3",
+            _hdr(4, 32, "rand") + " | P: tsb9 | P: tsb3 tsb3 | P: ts tsb2 | C: trb3 trb8 tr trb8",
+            _hdr(70, 33, "pct", True) + " | P: tsb150 tsb10 | P: tsb90 | C: trb64 trb100 trb100",   # runs capped by K = 64
+            _hdr(3, 34, "rand") + " | P: tsb5 | C: trb4",                               # receiver drops mid-batch: Closed for the unsent tail
             # chunk boundaries and chunk-table laps (chunk_cap 128, 3 entries): > 768 tickets
             _hdr(2, 17, "rand", True) + " | P: ts*999 | P: ts*999 | C: tr*999 tr*999",
             _hdr(64, 18, "rand", True) + " | P: ts*900 | C: tr*999 tr*500 | P: ts*900",
+            _hdr(200, 19, "rand", True) + " | P: tsb7*130 | P: tsb3*300 | C: trb5*300 trb64*40",    # runs across chunk boundaries
             "S 1 21 40 | P: ts ts ts | P: ts ts | C: tr tr tr tr tr",
             "S 2 22 40 | P: ts*4 | P: ts*4 | P: ts*2 | C: tr*8",
+            "S 2 23 60 | P: tsb2 tsb2 | P: tsb2 tsb2 | P: tsb3 | C: trb3 tr trb2",     # racing claims: the overshoot must be tombstoned
+            "S 3 24 60 | P: tsb4 ts | P: tsb3 tsb3 | C: trb2 trb4",
         ]
         return ks + fixed
 
     def gen(self, rng, tier):
         cap = rng.pick(CAPS)
         npr = 1 + rng.below(4)
-        threads = ["P: " + " ".join(["ts"] * rng.below(8)) for _ in range(npr)]
-        threads.insert(rng.below(len(threads) + 1), "C: " + " ".join(["tr"] * rng.below(13)))
+        budget = 99            # payload ids are (producer + 1) * 100 + seq: at most 99 items per producer
+
+        def pops():
+            ops, left = [], budget
+            for _ in range(rng.below(7)):
+                if rng.chance(2, 5):
+                    k = min(left, 1 + rng.below(2 * cap + 3))
+                    if k >= 1:
+                        ops.append("tsb%d" % k)
+                        left -= k
+                elif left >= 1:
+                    ops.append("ts")
+                    left -= 1
+            return ops
+        threads = ["P: " + " ".join(pops()) for _ in range(npr)]
+        cops = [rng.weighted([("tr", 3), ("trb%d" % (1 + rng.below(cap + 4)), 2)]) for _ in range(rng.below(11))]
+        threads.insert(rng.below(len(threads) + 1), "C: " + " ".join(cops))
         seed = 1 + rng.below(1 << 30)
         if rng.chance(1, 8):
             return "S %d %d %d | %s" % (cap, seed, 10 if tier == "quick" else 60, " | ".join(threads))
         if tier != "quick" and rng.chance(1, 40):
-            return _hdr(cap, seed, rng.pick(["pct", "rand"]), True) + " | P: ts*%d | C: tr*%d | P: ts*%d" % (
-                300 + rng.below(300), 500 + rng.below(400), 100 + rng.below(300))
+            return _hdr(cap, seed, rng.pick(["pct", "rand"]), True) + " | P: ts*%d tsb%d*%d | C: tr*%d trb%d*%d | P: ts*%d" % (
+                100 + rng.below(200), 1 + rng.below(9), 60, 300 + rng.below(300), 1 + rng.below(70), 40, 100 + rng.below(300))
         return _hdr(cap, seed, rng.weighted([("pct", 3), ("rand", 2)])) + " | " + " | ".join(threads)
 
     # ---- two-pass plumbing
@@ -322,8 +345,8 @@ _INFO = {"name": "E-TICKET (k3ticket)",
          "path": "coq/Chan/TicketK3.v, coq/Proofs/TicketK3{Base,Frame,Prod,Cons,Safety,Values,ValSteps,Theorems,Examples}.v, "
                  "coq/Props/C0x_k3ticket.v, ocaml/eng_k3ticket.ml, harness/sched/src/bin/k3ticket.rs (+scen.rs), vlib/engines_k3ticket.py",
          "kind": "K3 atomic-step model of mpsc::bounded_v3 (g_tail/progress/drained/consumer_retired, chunk table with id epochs, "
-                 "per-slot EMPTY/SET/SKIP, credit-before-claim try_send_now(+_cold), ensure_resident reuse CAS, deq_once with "
-                 "reset-on-drain, K-cadenced publish_progress, handle drops); invariants proved for ALL capacities, chunk sizes, "
+                 "per-slot EMPTY/SET/SKIP, credit-before-claim try_send_now(+_cold), claim_run(+_cold)/resolve_run batches, ensure_resident "
+                 "reuse CAS, deq_once/deq_run with reset-on-drain, K-cadenced publish_progress, handle drops); invariants proved for ALL capacities, chunk sizes, "
                  "table sizes, cadences, numbers of producers, programs and schedules; D2 trace refinement of real "
                  "scheduler-controlled executions + D3 source skeleton vs the model's step table"}
 _ASSUME = [
@@ -331,17 +354,17 @@ _ASSUME = [
     "usize tickets/counters modelled as unbounded N (fewer than 2^64 tickets per channel); `x.wrapping_sub(y) < cap` is modelled exactly below 2^64; `ticket >> log2` / `& mask` are / and mod by chunk_cap (theorems hold for every chunk_cap >= 1 and table size >= 1, the code's values are an instance checked on every trace)",
     "payload cells (UnsafeCell<Option<T>>) are not traced: the model places the write / take as its own interleavable step before the state store / after the state load",
     "the traced backend numbers slot and table-entry atomics by first access: the replay identifies them up to an injective renaming fixed at first occurrence",
-    "sync try_send / try_recv / Drop only (M1): blocking send/recv (park protocol), batches (claim_run/resolve_run/deq_run), recv_timeout, explicit close(), async handles and sync<->async conversion are outside this engine (K2 engine `mpscb` covers them sequentially)",
+    "sync non-blocking API only: try_send, try_send_batch, try_recv, try_recv_batch, Drop; blocking send/recv/send_batch/recv_batch (the park protocol: waiter queues and counts, notify hand-off), recv_timeout, explicit close(), async handles and sync<->async conversion are outside this engine (K2 engine `mpscb` covers them sequentially)",
     "Shared::drop (frees the residue) touches no atomics and is not a model step; the residue is `buffered` in the final state",
 ]
 
 PROPS = {
     "C01": {"engines": [ENGINE], "assumptions": _ASSUME, "engine_info": _INFO,
-            "covers": "K3 mpsc::bounded_v3 (try_send/try_recv), all schedules and producer counts: accepted = received ++ buffered in ticket order, NoDup, Ok-sent <-> SET ticket, Full/Closed leave no SET, SKIP carries no payload"},
+            "covers": "K3 mpsc::bounded_v3 (try_send, try_send_batch via claim_run/resolve_run, try_recv, try_recv_batch via deq_run), all schedules and producer counts: accepted = received ++ buffered in ticket order, NoDup, Ok items <-> SET tickets, Full/Closed items leave no SET, SKIP carries no payload"},
     "C02": {"engines": [ENGINE], "assumptions": _ASSUME, "engine_info": _INFO,
             "covers": "K3 mpsc::bounded_v3, all schedules: delivery in ticket order; per-producer FIFO (a thread's tickets and op numbers increase together) for accepted and received"},
     "C03": {"engines": [ENGINE], "assumptions": _ASSUME, "engine_info": _INFO,
-            "covers": "K3 mpsc::bounded_v3, all schedules: SET-undrained tickets lie in [pos, pos+cap), at most cap payloads buffered; progress, drained <= pos <= g_tail; the cursor never passes an owned ticket"},
+            "covers": "K3 mpsc::bounded_v3 (single claims and claim_run batches), all schedules: SET-undrained tickets lie in [pos, pos+cap), at most cap payloads buffered; progress, drained <= pos <= g_tail; the cursor never passes an owned ticket"},
     "C09": {"engines": [ENGINE], "assumptions": _ASSUME, "engine_info": _INFO,
             "covers": "K3 mpsc::bounded_v3, all schedules: slot ownership (written only by the ticket owner while EMPTY and resident; exact slot contents), reset-on-drain (a retired chunk is all EMPTY), table entries re-labelled only when retired, no cell overwritten/taken empty"},
 }
